@@ -15,7 +15,16 @@ def build(repo):
     """(re)build the searcher against repo's working tree; returns path of the binary or raises"""
     work = os.path.join(os.environ.get('VERIF_BUILD') or os.path.join(VERIF, 'build'), 'searcher')
     os.makedirs(os.path.join(work, 'src'), exist_ok=True)
-    open(os.path.join(work, 'Cargo.toml'), 'w').write('''[package]
+
+    def put(path, text):
+        # atomic and only when the content differs: several checks may build the searcher at the same time (cargo serialises the build itself)
+        if os.path.exists(path) and open(path).read() == text:
+            return
+        tmp = '%s.tmp%d' % (path, os.getpid())
+        open(tmp, 'w').write(text)
+        os.replace(tmp, path)
+
+    put(os.path.join(work, 'Cargo.toml'), '''[package]
 name = "scnr-searcher"
 version = "0.0.0"
 edition = "2021"
@@ -26,13 +35,10 @@ serde = { version = "1", features = ["derive"] }
 serde_json = "1"
 [workspace]
 ''' % repo)
-    src = open(os.path.join(SRC, 'src', 'main.rs')).read()
-    dst = os.path.join(work, 'src', 'main.rs')
-    if not os.path.exists(dst) or open(dst).read() != src:
-        open(dst, 'w').write(src)
+    put(os.path.join(work, 'src', 'main.rs'), open(os.path.join(SRC, 'src', 'main.rs')).read())
     lock = os.path.join(repo, 'Cargo.lock')
     if os.path.exists(lock) and not os.path.exists(os.path.join(work, 'Cargo.lock')):
-        open(os.path.join(work, 'Cargo.lock'), 'w').write(open(lock).read())
+        put(os.path.join(work, 'Cargo.lock'), open(lock).read())
     env = dict(os.environ, CARGO_NET_OFFLINE='true', CARGO_TARGET_DIR=os.path.join(work, 'target'))
     r = subprocess.run(['cargo', 'build', '--release', '--offline', '-q'], cwd=work, env=env, stdout=subprocess.PIPE, stderr=subprocess.PIPE, text=True)
     if r.returncode != 0:
